@@ -174,7 +174,10 @@ func retSite(c *Ctx, fn *ssa.Function, root int) string {
 
 // ---------------------------------------------------------------- GLOBAL / NOSHARE
 
-func ruleGlobal(c *Ctx) *RuleResult {
+func ruleGlobal(c *Ctx) *RuleResult { return ruleGlobalIn(c, "") }
+
+// ruleGlobalIn restricts GLOBAL to the functions of one package (module-relative path); "" = all.
+func ruleGlobalIn(c *Ctx, pkgRel string) *RuleResult {
 	r := &RuleResult{Rule: "GLOBAL", Doc: "no function outside init writes through a package-level variable, and no function hands out a pointer-carrying value rooted at one", MinInst: 1}
 	E := c.Eff()
 	// enumerate package-level variables from the type-checked packages
@@ -192,6 +195,11 @@ func ruleGlobal(c *Ctx) *RuleResult {
 	for _, fn := range c.Funcs {
 		if fn.Name() == "init" && fn.Parent() == nil {
 			continue
+		}
+		if pkgRel != "" {
+			if p := fnPkg(fn); p == nil || p.Pkg.Path() != c.Mod+"/"+pkgRel {
+				continue
+			}
 		}
 		r.inst("function %s", c.short(fn))
 		var u []string
@@ -363,12 +371,83 @@ func ruleWhoWritesX(c *Ctx, rule string, pkgRel, typeName string, allowed []stri
 		if i := strings.Index(base, "$"); i >= 0 {
 			base = base[:i]
 		}
-		r.oblig(allow[base])
-		if !allow[base] {
-			r.find(name+":writes "+typeName, c.pos(fn.Pos()), "%s may write %s fields (%s) but is not one of the construction-time functions %v", name, typeName, strings.Join(hits, ", "), allowed)
+		ok, via := derivedAllowed(c, fn, allow, map[*ssa.Function]bool{})
+		r.oblig(ok)
+		if ok && !allow[base] {
+			r.note("%s is an unexported helper called only from allowed writers: allowed", name)
+		}
+		if !ok {
+			why := ""
+			if via != "" {
+				why = " (it is also called from " + via + ")"
+			}
+			r.find(name+":writes "+typeName, c.pos(fn.Pos()), "%s may write %s fields (%s) but is neither one of the allowed functions %v nor a helper used only by them%s", name, typeName, strings.Join(hits, ", "), allowed, why)
 		}
 	}
 	return r
+}
+
+// derivedAllowed: fn is on the allow list, is a closure of an allowed function, or is an unexported
+// function of the module all of whose module callers are allowed in the same sense (a helper
+// extracted from an allowed function). via names a caller that is not allowed.
+func derivedAllowed(c *Ctx, fn *ssa.Function, allow map[string]bool, seen map[*ssa.Function]bool) (bool, string) {
+	name := c.short(fn)
+	if i := strings.Index(name, "$"); i >= 0 {
+		name = name[:i]
+	}
+	if allow[name] {
+		return true, ""
+	}
+	if seen[fn] {
+		return true, "" // recursion among helpers: decided by the other callers
+	}
+	seen[fn] = true
+	if fn.Parent() != nil {
+		return derivedAllowed(c, fn.Parent(), allow, seen)
+	}
+	if fn.Object() == nil || fn.Object().Exported() {
+		return false, ""
+	}
+	ncall := 0
+	for _, caller := range c.Funcs {
+		for _, b := range caller.Blocks {
+			for _, in := range b.Instrs {
+				var cc *ssa.CallCommon
+				switch x := in.(type) {
+				case *ssa.Call:
+					cc = &x.Call
+				case *ssa.Defer:
+					cc = &x.Call
+				case *ssa.Go:
+					cc = &x.Call
+				default:
+					// a function value taken without being called: cannot be followed
+					for _, op := range in.Operands(nil) {
+						if op != nil && *op == ssa.Value(fn) {
+							return false, c.short(caller) + " (as a value)"
+						}
+					}
+					continue
+				}
+				if cc.StaticCallee() != fn {
+					for _, a := range cc.Args {
+						if a == ssa.Value(fn) {
+							return false, c.short(caller) + " (as a value)"
+						}
+					}
+					continue
+				}
+				ncall++
+				if caller == fn {
+					continue
+				}
+				if ok, _ := derivedAllowed(c, caller, allow, seen); !ok {
+					return false, c.short(caller)
+				}
+			}
+		}
+	}
+	return ncall > 0, ""
 }
 
 // ---------------------------------------------------------------- RETAIN
@@ -535,8 +614,9 @@ func ruleFieldWriters(c *Ctx, rule string, specs []fieldWriterSpec) *RuleResult 
 			writers++
 			name := c.short(fn)
 			r.inst("%s.%s written by %s (%s)", sp.typ, sp.field, name, hit)
-			r.oblig(allow[name])
-			if !allow[name] {
+			okW, _ := derivedAllowed(c, fn, allow, map[*ssa.Function]bool{})
+			r.oblig(okW)
+			if !okW {
 				r.find(name+":writes "+sp.typ+"."+sp.field, c.pos(fn.Pos()), "%s may write %s.%s (%s) but is not one of %v", name, sp.typ, sp.field, hit, sp.allowed)
 			}
 		}
